@@ -372,7 +372,34 @@ def rule_wildcard_kind(ctx: Ctx, rep: Report) -> None:
     rep.floor(rule, 1)
 
 
+def rule_multipath_step_grammar(ctx: Ctx, rep: Report) -> None:
+    """C14.multipath_step_grammar: a BIP389 multipath step is `<a;b;...>` where each
+    alternative is a BIP380 path step: digits and an optional hardening marker
+    (h, H or '). The pattern that finds the step in a key expression admits
+    them all -- evaluated here on four spellings -- or `.../<0h;1h>/*`, the
+    account-level pair of every BIP44-like wallet, is not seen as a multipath
+    step and the descriptor is refused or, worse, read as one path."""
+    import re as _re
+    rule = "C14.multipath_step_grammar"
+    mi = ctx.module("btclib.descriptors.descriptors")
+    pat = None
+    for st in mi.tree.body:
+        if isinstance(st, ast.Assign) and isinstance(st.targets[0], ast.Name) and st.targets[0].id == "_MULTIPATH_STEP" and isinstance(st.value, ast.Call) and st.value.args:
+            pat = ctx.fold(st.value.args[0], mi)
+            where = f"{mi.relpath}:{st.lineno}"
+    if not isinstance(pat, str):
+        rep.unknown(rule, "_MULTIPATH_STEP", f"{mi.relpath}:1", "the pattern does not fold")
+        return
+    rx = _re.compile(pat)
+    bad = [s_ for s_ in ("<0;1>", "<0h;1h>", "<0';1'>", "<0H;1H>", "<0;1;2>") if rx.fullmatch(s_) is None and not (rx.search("x/" + s_ + "/*") and rx.search("x/" + s_ + "/*").group(0) == s_)]
+    rep.ob(rule, "_MULTIPATH_STEP:alternatives", not bad, where, f"`{pat}` finds plain and hardened alternatives" if not bad else
+           f"`{pat}` does not find {bad}: a hardened multipath step is not recognised as one")
+    rep.floor(rule, 1)
+
+
 RULES = [
+    ("C14.multipath_step_grammar", rule_multipath_step_grammar),
+
     ("C14.text_reads_back", rule_text_reads_back),
     ("C14.wildcard_kind", rule_wildcard_kind),
     ("C14.params_forwarded", rule_params_forwarded_),
